@@ -276,22 +276,24 @@ Proof. exact flush_full_reachable. Qed.
 Print Assumptions C04_flush_full_reachable.
 
 (* The byte-stream side (a terminal driven through the xterm driver): the printable text a flush
-   sends -- the code points of all its prints, in order (prints_of) -- is the sequence of the
-   expected cell texts of the buffer in row-major order: every visible grapheme once, nothing
-   for Skip and Erase cells (Erase goes out as ECH), a blank or nothing for a half-visible
-   double-width character.  In particular the hidden part of a string is never sent.
+   sends (xterm_payload, after erasech of src/termdriver-xterm.c: the code points of all prints in
+   order, and blanks instead of ECH for an erase under a reverse-video pen; pn = the pen the
+   terminal had before) is the sequence of the expected cell texts of the buffer in row-major
+   order: every visible grapheme once, nothing for Skip cells and for Erase cells sent as ECH, a
+   blank per Erase cell in reverse video, a blank or nothing for a half-visible double-width
+   character.  In particular the hidden part of a string is never sent.
    payload_checkb is the checker the oracle evaluates on the bytes the C sent through the xterm
    driver (`flx`). *)
-Theorem C04_flush_payload : forall s ops s',
+Theorem C04_flush_payload : forall s ops s' pn,
   Inv s -> acells_ok (abs_rb s) -> flush s = Ok (ops, s') ->
-  payload_checkb (abs_rb s) (prints_of ops) = true.
+  payload_checkb (abs_rb s) (xterm_payload pn ops) = true.
 Proof. exact flush_payload. Qed.
 Print Assumptions C04_flush_payload.
 
-Theorem C04_flush_payload_reachable : forall L C prog s v,
+Theorem C04_flush_payload_reachable : forall L C prog s v pn,
   0 <= L -> 0 <= C -> Forall op_ok prog -> run (rb_new L C) prog = Ok (s, v) ->
   exists ops, flush s = Ok (ops, reset s) /\
-    payload_checkb (fst (arun (a_new L C) prog)) (prints_of ops) = true.
+    payload_checkb (fst (arun (a_new L C) prog)) (xterm_payload pn ops) = true.
 Proof. exact flush_payload_reachable. Qed.
 Print Assumptions C04_flush_payload_reachable.
 
